@@ -129,7 +129,7 @@ def run_tlc(tp, dp, wd, tag, mode="", known="", cfg="Qcow2Env.cfg", spec="Qcow2E
     return recs, gen, dist
 
 
-def tlc_enumerate(spec, cfg=None, env=None, timeout=600):
+def tlc_enumerate(spec, cfg=None, env=None, timeout=600, need_recs=True, workers=4):
     """run a generator specification; returns the JSON values it printed"""
     cfg = cfg or spec.replace(".tla", ".cfg")
     e = dict(os.environ, JAVA_TOOL_OPTIONS=JAVA_OPTS)
@@ -138,14 +138,17 @@ def tlc_enumerate(spec, cfg=None, env=None, timeout=600):
     md = os.path.join(VERIF, "work", "gen", "states_" + spec.replace(".tla", ""))
     os.makedirs(os.path.dirname(md), exist_ok=True)
     try:
-        p = subprocess.run(["tlc", "-workers", "4", "-metadir", md, "-cleanup", "-noGenerateSpecTE", "-config", cfg, spec],
+        p = subprocess.run(["tlc", "-workers", str(workers), "-metadir", md, "-cleanup", "-noGenerateSpecTE", "-config", cfg, spec],
                            cwd=SPEC, env=e, stdout=subprocess.PIPE, stderr=subprocess.STDOUT, text=True, timeout=timeout)
     except subprocess.TimeoutExpired:
         raise ToolError(f"TLC timeout on generator {spec}")
     finally:
         shutil.rmtree(md, ignore_errors=True)
     recs, gen, dist, ok = parse_tlc(p.stdout)
-    if not recs:
+    if not ok:
+        log(p.stdout[-3000:])
+        raise ToolError(f"TLC reported an error on {spec}")
+    if need_recs and not recs:
         log(p.stdout[-2000:])
         raise ToolError(f"generator {spec} produced nothing")
     return recs, gen, dist
